@@ -76,7 +76,8 @@ def captured_binding(func, name: str) -> str:
             a = p.args
             if name in {x.arg for x in [*a.posonlyargs, *a.args, *a.kwonlyargs]}:
                 return "<parameter>"
-            vals = [n for n in own_nodes(p) if isinstance(n, ast.Assign) and any(isinstance(t, ast.Name) and t.id == name for t in n.targets)]
+            vals = [n for n in own_nodes(p) if (isinstance(n, ast.Assign) and any(isinstance(t, ast.Name) and t.id == name for t in n.targets))
+                    or (isinstance(n, ast.AnnAssign) and n.value is not None and isinstance(n.target, ast.Name) and n.target.id == name)]
             if len(vals) == 1:
                 return rtext(vals[0].value, {})
             if vals:
